@@ -17,6 +17,7 @@ Anything outside the subset raises Reject; a rejected REQUIRED entry point
 becomes a dummy and translator_ok_code9 := false.
 """
 import ast
+import pyimports
 import hashlib
 import os
 import sys
@@ -273,7 +274,7 @@ class Unit:
         self.mods = {}
         for m in ("data", "dumpers", "parser_spec", "exceptions"):
             with open(os.path.join(SRC, m + ".py")) as fh:
-                self.mods[m] = ast.parse(fh.read())
+                self.mods[m] = pyimports.canonicalise(ast.parse(fh.read()))
         self.classes = {}
         self.modfns = {}
         for m in ("data", "dumpers"):
